@@ -33,7 +33,7 @@ S_QUICK = [
     ("ksihttps_quad_expl_id", shape("ksi+https", None, 1, 0, 3, 1, 0, 1), (1, 0, 1), 0, (0, 0, 0, 1)),
     ("ksihttp_ui_expl_key_nopath", shape("ksi+http", (1, 2), 0, 2, 5, 0, 1, 0), (0, 1, 1), 0, None),
     ("ksihttp_v6", shape("ksi+http", (1, 1), 2, 3, 2, 2), (0, 0, 0), 0, (0, 0, 1, 0)),
-    ("tcp_ui", shape("ksi+tcp", (2, 1), 0, 3, 4, 0), (0, 0, 0), 1, (0, 0, 0, 0)),
+    ("tcp_ui_expl_key", shape("ksi+tcp", (2, 1), 0, 3, 4, 0), (0, 1, 0), 1, (0, 1, 0, 0)),
     ("tcp_quad_expl", shape("ksi+tcp", None, 1, 0, 5, 2), (1, 1, 1), 0, (1, 0, 1, 1)),
     ("file_path", shape("file", None, 3, 0, 0, 3), (1, 1, 0), 0, (0, 0, 0, 0)),
     ("plainhttp_ui_query_nopath", shape("http", (1, 0), 0, 3, 3, 0, 2, 0), (0, 0, 0), 0, (0, 0, 1, 0)),
